@@ -23,7 +23,9 @@ from typing import Any, Callable, Dict, Iterable, List, Optional, Sequence, Tupl
 VERIF = Path(__file__).resolve().parent.parent
 LEAN = VERIF / "lean"
 REPO = Path(os.environ.get("MIDGARD_REPO", "/repo"))
-EVIDENCE = VERIF / "evidence"
+# runs against a scratch tree (MIDGARD_REPO set, seed verification) write their evidence elsewhere: the committed
+# evidence always describes /repo itself
+EVIDENCE = Path(os.environ["VERIF_EVIDENCE_DIR"]) if os.environ.get("VERIF_EVIDENCE_DIR") else VERIF / "evidence"
 REPLAYS = EVIDENCE / "replays"
 KNOWN = VERIF / "known_findings.txt"
 BIN = LEAN / ".lake" / "build" / "bin"
